@@ -9,7 +9,7 @@ conf = {}
 for l in open(os.path.join(S, "_confirm.jsonl")):
     d = json.loads(l); conf[d["m"]] = d
 mat = {}
-for f in [x for x in (os.path.join(S, "_matrix_final.jsonl"), os.path.join(S, "_matrix_r3.jsonl"), os.path.join(S, "_matrix_r4.jsonl"), os.path.join(S, "_matrix_r5.jsonl")) if os.path.exists(x)]:
+for f in [x for x in (os.path.join(S, "_matrix_final.jsonl"), os.path.join(S, "_matrix_r3.jsonl"), os.path.join(S, "_matrix_r4.jsonl"), os.path.join(S, "_matrix_r5.jsonl"), os.path.join(S, "_matrix_r6.jsonl")) if os.path.exists(x)]:
     for l in open(f):
         d = json.loads(l)
         if "check" in d:
@@ -33,7 +33,7 @@ for pid in ids:
             title = [l.strip("# \n") for l in open(os.path.join(src, "notes.md")) if l.strip()][0]
         else:
             title = [l.strip("/!# \n") for l in open(os.path.join(src, "demonstration.rs")) if l.strip()][0]
-        title = re.sub(r"^(Mutant )?C\d\d\s*/\s*(mutant )?[A-J]\s*[—:-]*\s*", "", title, flags=re.I)
+        title = re.sub(r"^(Mutant )?C\d\d\s*/\s*(mutant )?[A-L]\s*[—:-]*\s*", "", title, flags=re.I)
         files = sorted({l[6:].strip() for l in open(os.path.join(src, "patch.diff")) if l.startswith("+++ b/")})
         c = conf.get(m, {})
         det = {}
@@ -50,7 +50,7 @@ for pid in ids:
         meta = {
             "property": pid, "label": x, "summary": title, "files_touched": files,
             "origin": "fresh sub-agent, round %d; it saw only the text of property %s and a scratch worktree of /repo "
-                      "(never /verif)" % (1 if x in "AB" else 2 if x in "CD" else 3 if x in "EF" else 4 if x in "GH" else 5, pid),
+                      "(never /verif)" % (1 if x in "AB" else 2 if x in "CD" else 3 if x in "EF" else 4 if x in "GH" else 5 if x in "IJ" else 6, pid),
             "confirmed_by_me": {
                 "how": "tools/confirm_seeded.sh in a scratch git worktree outside /repo and /verif (removed afterwards)",
                 "patch_applies_to_repo_head": c.get("applies"),
@@ -82,8 +82,8 @@ tbl = ["| change | what it does | own check | other checks run on it |", "|---|-
 for m, t, f, own, others in rows:
     tbl.append("| %s | %s (`%s`) | %s | %s |" % (m, t.replace("|", "/"), ", ".join(x.replace("src/", "") for x in f), own, others))
 text = ("<!-- seeded:begin -->\n"
-        "%d seeded changes are kept under `/verif/seeded/<property>/<A-J>/` (`patch.diff`, `demonstration.rs`, `notes.md`,\n"
-        "`meta.json`). A and B come from a first round of fresh sub-agents, C/D, E/F, G/H and I/J from four further rounds that\n"
+        "%d seeded changes are kept under `/verif/seeded/<property>/<A-L>/` (`patch.diff`, `demonstration.rs`, `notes.md`,\n"
+        "`meta.json`). A and B come from a first round of fresh sub-agents, C/D, E/F, G/H, I/J and K/L from five further rounds that\n"
         "were told which places the earlier rounds had used; each agent saw only the property's text and a scratch worktree of\n"
         "`/repo`, never `/verif`.\n"
         "I confirmed every one myself in a scratch worktree (`tools/confirm_seeded.sh`): the patch applies to `/repo`'s HEAD,\n"
